@@ -26,6 +26,14 @@ CLAIMED = {
   "cone purity over the VTA call graph of VMExecutor.Execute (forbidden-construct scan with a reviewed, mechanically re-checked instance table); natural-loop analysis of map ranges (early exits, appends, sort-after); value-flow of clock reads; who-may-read chain stores; dominance/guard rules for sort and snapshot/revert",
   "Every function reachable from block execution (~1,090, cut at logging/mysql/notify) is scanned for replica-local nondeterminism sources; each of the 18 hits is in a reviewed table and still has the mechanical shape of its class; reads of the block/group stores from the cone are the six reviewed ones; canonical sort precedes execution; failed transactions are reverted to the snapshot taken immediately before. Exhaustive over the cone. That the deterministic code computes the right root, and the sub-chain reward call, are not decided.",
   "Trusted: VTA over-approximates callees; logging/mysql/notify do not feed consensus state; the classification reasons in rules/c01.go. The fix: commit 9e782cd (ChangeAssets sorted iteration) repaired finding F1; the check re-verifies the sorted-after shape on every run."),
+ "C05": ("3/C05",
+  "dominance and must-pass-through on the CFG of insertBlock/remove/recovery; who-may-write/who-may-call tables for the block stores and head pointer; guarded-by comparison with operand roles for the fork-choice sites",
+  "Bracketing, ownership and ordering facts decided for every store write and every caller: intent mark before the first and erased after the last store write (insert and remove); the three block stores and the head pointer are written only from the reviewed set, whose members are called only inside brackets; recovery runs before the head's state is opened and never erases a mark without re-running remove(); state commit precedes the head update; all three callers of removeFromCommonAncestor are guarded by the TotalQN / prove-value / hash comparison with the correct operand roles; verification precedes insertion. What happens at each physical crash point is not decided.",
+  "Trusted: go/ssa; single-key LevelDB writes are atomic; chain lock held by callers."),
+ "C17": ("3/C17",
+  "guarded-by / dominance rules on add, MarkExecuted, UnMarkExecuted, checkNonce; must-pass-through inside the packing loop; lockset analysis of guarded fields with caller-side establishment; field-type table for shared structs",
+  "For the pool's entry points: push only after a negative existence test over both stores; executed records written and flushed before removal from pending and deleted before re-adding; batch bounded by the per-block limit; no packing on the nonce-too-high edge and nonce advance implies packing; every field of TxPool/simpleContainer is thread-safe by type, immutable, or accessed only under its mutex at every access site. Linearizability and third-party container internals are not decided.",
+  "Trusted: golang-lru, gmap(safe=true), sync.Map, LevelDB are goroutine-safe. The fix: commit bc55981 (mutex around TxPool.batch) repaired finding F17; the lockset rule re-checks it on every run."),
 }
 
 NOT_YET = {}
